@@ -389,7 +389,8 @@ fn kinds(names: &[&'static str], texts: &[&'static str], filenames: &[&'static s
 
 const TEXTS: &[&str] = &["a", "", "é", "a\r\nb"];
 const FILENAMES: &[&str] = &["f.txt", "", "é.png"];
-const TYPES: &[Option<&str>] = &[Some("text/plain"), None, Some("image/png")];
+// (the last one: a media type with parameters - "the same ... media type" means the whole value, parameters included)
+const TYPES: &[Option<&str>] = &[Some("text/plain"), None, Some("image/png"), Some("text/csv; charset=ISO-8859-1; header=present")];
 const CONTENTS: &[Content] = &[
     Content::Lit(b"x"), Content::Lit(b""), Content::Lit(b"\r\n"), Content::Lit(b"a\r\n"), Content::Lit(b"\r"), Content::Lit(b"--"),
     Content::XDashBoundary, Content::XYDashBoundary, Content::DashBoundary, Content::Lit(b"\0\xff"),
@@ -415,7 +416,7 @@ fn families(tier: Tier) -> Vec<Family> {
         opts: if quick { opts_quick()[..2].to_vec() } else { EncOpts::all() }, targets: main_targets.clone(), wire: false, selfcheck_len: 2 });
     // F2: three parts, non-empty filenames (the empty-file convention has its own family)
     if quick {
-        v.push(Family { id: "three-parts(reduced)", kinds: kinds(ab, &["a", "a\r\nb"], &["f.txt"], &[Some("text/plain"), None],
+        v.push(Family { id: "three-parts(reduced)", kinds: kinds(ab, &["a", "a\r\nb"], &["f.txt"], &[Some("text/csv; charset=ISO-8859-1; header=present"), None],
                 &[Content::Lit(b"x"), Content::Lit(b""), Content::Lit(b"a\r\n"), Content::Lit(b"\r"), Content::Lit(b"--"), Content::Lit(b"\r\n")]),
             max_parts: 3, boundaries: vec!["B", "----WebKitFormBoundaryX"], opts: opts_quick()[..6].to_vec(), targets: main_targets.clone(), wire: false, selfcheck_len: 0 });
     } else {
